@@ -219,6 +219,18 @@ func collide(t *rapid.T, m *mgen.Model) {
 			}
 		}
 	}
+	if rapid.IntRange(0, 3).Draw(t, "unresolvedReceivers") == 3 {
+		// a receiver whose package the front-end could not tell: only the simple name is recorded
+		for i := range m.Classes {
+			for j := range m.Classes[i].Methods {
+				for k := range m.Classes[i].Methods[j].Calls {
+					if m.Classes[i].Methods[j].Calls[k].Node != "" && rapid.IntRange(0, 3).Draw(t, "unresolved") == 0 {
+						m.Classes[i].Methods[j].Calls[k].Pkg = ""
+					}
+				}
+			}
+		}
+	}
 	if rapid.IntRange(0, 2).Draw(t, "overloads") > 0 {
 		for i := range m.Classes {
 			c := &m.Classes[i]
